@@ -12,6 +12,7 @@ import NgVerif.Model.Down
 import NgVerif.Model.Pyramid
 import NgVerif.Model.Scales
 import NgVerif.Model.FileStore
+import NgVerif.Model.Transform
 /-
   ngdriver: line protocol. One request per line on stdin (space-separated tokens),
   one reply per line on stdout. Unknown / malformed requests answer `bad-request`.
@@ -186,6 +187,14 @@ def fsHistory (cfg : FileStore.Cfg) (ops : List String) : String :=
   let (fs, outs) := go [] ops []
   let paths := (fs.map fun e => "/".intercalate e.1).mergeSort (fun a b => a < b || a == b)
   ";".intercalate outs ++ "#" ++ ";".intercalate paths
+
+def parseQ (t : String) : Option Transform.Q :=
+  match t.splitOn "/" with
+  | [n, d] => do
+    let n ← parseInt n
+    let d ← parseNat d
+    pure ⟨n, d⟩
+  | _ => none
 
 def handle (toks : List String) : String :=
   match toks with
@@ -376,6 +385,14 @@ def handle (toks : List String) : String :=
   | "fs-history" :: flat :: gz :: rest =>
     -- the operation list may contain spaces inside MIME types? no: tokens are re-joined defensively
     fsHistory ⟨flat == "1", gz == "1"⟩ ((" ".intercalate rest).splitOn ";")
+  | ["ng-transform", a, v] =>
+    match (a.splitOn ",").mapM parseQ, (v.splitOn ",").mapM parseQ with
+    | some a, some v =>
+      ",".intercalate ((Transform.neuroglancerTransform a v).map fun q => s!"{q.n}/{q.d}")
+    | _, _ => "bad-request"
+  | ["ng-type", name] =>
+    let r := Transform.guessedType name
+    s!"{r.1} {if r.2 then 4 else 0}"
   | _ => "bad-request"
 
 partial def loop (h : IO.FS.Stream) (out : IO.FS.Stream) : IO Unit := do
